@@ -351,7 +351,8 @@ class ThreadRun:
 
     def _tracer(self, frame, event, arg):
         fn = frame.f_code.co_filename
-        if "/httpcore/_sync/" not in fn:
+        # (the thread primitives of httpcore/_synchronization.py are part of the sync tree's critical sections)
+        if "/httpcore/_sync/" not in fn and not fn.endswith("/httpcore/_synchronization.py"):
             return None
         if event == "line" and self.sched.me() is not None and self.sched.locks_held >= 0:
             if self.sched.preempt is not None and self.sched.preempt(self.sched):
